@@ -76,10 +76,20 @@ namespace Pistache::Http::Experimental
         {
             using Http::crlf;
 
+            // a header's writer may leave the stream in another number base,
+            // fill or precision: what follows (the next header, Content-Length)
+            // starts from the defaults again
+            const auto flags     = streamBuf.flags();
+            const auto fill      = streamBuf.fill();
+            const auto precision = streamBuf.precision();
+
             for (const auto& header : headers.list())
             {
                 streamBuf << header->name() << ": ";
                 header->write(streamBuf);
+                streamBuf.flags(flags);
+                streamBuf.fill(fill);
+                streamBuf.precision(precision);
                 streamBuf << crlf;
             }
         }
